@@ -60,6 +60,7 @@ pub fn order_rules() -> Vec<Rewrite> { vec![
         "(mergejoin ?type ?cond ?lkey ?rkey ?left ?right)"
         if is_orderby("?lkey", "?left")
         if is_orderby("?rkey", "?right")
+        if is_inner_or_outer("?type")
     ),
     rw!("sort-agg";
         "(hashagg ?keys ?aggs ?child)" =>
@@ -67,6 +68,20 @@ pub fn order_rules() -> Vec<Rewrite> { vec![
         if is_orderby("?keys", "?child")
     ),
 ]}
+
+/// Returns true if the join type is one the merge join executor implements
+/// (it has no semi or anti variant).
+fn is_inner_or_outer(join_type: &str) -> impl Fn(&mut EGraph, Id, &Subst) -> bool {
+    let join_type = var(join_type);
+    move |egraph, _, subst| {
+        egraph[subst[join_type]].nodes.iter().any(|e| {
+            matches!(
+                e,
+                Expr::Inner | Expr::LeftOuter | Expr::RightOuter | Expr::FullOuter
+            )
+        })
+    }
+}
 
 /// Returns true if the plan is ordered by the keys.
 fn is_orderby(keys: &str, plan: &str) -> impl Fn(&mut EGraph, Id, &Subst) -> bool {
